@@ -6,6 +6,8 @@ upper-tick update (subtract from net) and the position update; the in-range test
 exactly lower <= current < upper; gross == 0 returns the default (uninitialised) update, otherwise initialized = true;
 a crossing adds -net (a_to_b) or +net and happens only on initialised ticks reached
 exactly; the sync step applies each computed update to its own tick index.
+Also decided: the swap's tick-cursor and array hand-over rules, the array grid and the range validator of
+both packagings (instances of C10.R4-R6 and C18.R7 re-decided here);
 Not decided: the sum equality over histories; the tick-array search (C10)."""
 from analysis import cfg, atoms as A, preach, writes
 from analysis.ir import callee_path, AnchorMissing
